@@ -110,16 +110,18 @@ fn rand_segment(rng: &mut Rng, scale: f32) -> ActorSegment {
 }
 
 fn world(out: &mut Out, rng: &mut Rng, nseg: usize) {
-    let names = ["frame", "boom", "arm", "attachment", "boom", "tip", "frame"];
+    // ASCII and multi-byte names (the wire format counts BYTES)
+    let names = ["frame", "boom", "arm", "attachment", "boom", "flèche", "底盘"];
     let mut segs: Vec<(String, ActorSegment)> = vec![];
     let scale = *rng.pick(&[1.0f32, 10.0, 1000.0]);
     for _ in 0..nseg {
         // duplicate names on purpose sometimes: the first match ends the chain
         let pool = if rng.chance(1, 3) { 7 } else { 4 };
         let n = names[rng.below(pool) as usize].to_string();
+        let n = if rng.chance(1, 8) { format!("{}é", n) } else { n };
         segs.push((n, rand_segment(rng, scale)));
     }
-    let mut bld = ActorBuilder::new("machine");
+    let mut bld = ActorBuilder::new(*rng.pick(&["machine", "", "graafmachine-é", "掘"]));
     for (n, s) in &segs {
         bld = bld.attach_segment(n.clone(), s.clone());
     }
